@@ -1,4 +1,4 @@
-CONSTANTS B = 4  Bufs = {3, 99}  Paths = {"A", "B"}  WithTrunc = TRUE  WithCorrupt = TRUE  FixSeek = FALSE  FixTrunc = FALSE
+CONSTANTS B = 3  Bufs = {2, 99}  Paths = {"A", "B"}  WithTrunc = TRUE  WithCorrupt = TRUE  FixSeek = FALSE  FixTrunc = FALSE
 CONSTANT Shapes <- ShapesQuick
 INIT Init
 NEXT Next
